@@ -197,7 +197,7 @@ class DumpExpect:
                     elif not (it.kind == "const" and it.d is None):
                         problems.append(f"gap {i} at {path} does not hold None")
         walk(self.layout.crown, result, ())
-        out.append(("tree-shape", ["C03", "C20", "C02"], z3.BoolVal(not problems), "; ".join(problems)))
+        out.append(("tree-shape", ["C03", "C20", "C02", "C01"], z3.BoolVal(not problems), "; ".join(problems)))
         for fname, path in self.leaves.items():
             present, val, _ = self.vals[fname]
             in_list = any(isinstance(p, int) for p in path[-1:])
